@@ -8,7 +8,7 @@ META = {
     "level": "proof",
     "technique": "Coq theorems on a Gallina model of append / update / delete over the ordered entry list; model tied to the real `pna` binary by seeded command histories over an evolving file tree, compared after every step Refined to the container level (Props/C11_container.v): in-place append on any archive file / part chain the reader accepts reads back as old ++ new at raw, entry and decoded level with every earlier byte unchanged; delete on the bytes of solid-free archives; abstraction `logical` from files to the list model.",
     "level_text": "The ordered-list equations for append and for the repaired update pass (entries not named stay, unchanged and in order; every named path on disk occurs exactly once with the disk's content; no duplicate names survive a history) are proved in Coq for all archives, targets and disks (closed under the global context). The model is run against the real binary on seeded histories of create / append / update (with and without -r, time filters, exclude, solid strategies) / delete / re-split over single-file, multipart and solid archives; after each step the archive read through libpna and through `pna list` must equal the model's list, and the property's ordered-map specification is evaluated on the implementation's archives as an independent oracle. Refined to archive FILES (Props/C11_container.v, C11_update.v): for any byte string the reader accepts, the in-place append (seek_to_end, overwrite from the end marker, finalize; for part chains the walk of append.rs) leaves every earlier byte unchanged and reads back as old ++ new at raw, entry and decoded level for every codec and cipher; update and delete on the bytes, with solid blocks under both strategies, equal Update.update_cmd / Update.delete under the abstraction `logical`; on written-form files any history of create / append / update / delete / failing commands ends in a file abstracting to the list model's result with no duplicate names.",
-    "level_note": "Trusted: Coq kernel + vm_compute; extraction and the OCaml driver (sample re-evaluated in the kernel each run); the Python orchestration (props/_update.py: walker emulation = pre-order over raw readdir order, glob table for delete patterns, content tokens = first 8 bytes of SHA-256); harness `dump`. The logical model flattens solid blocks and part boundaries; symbolic links, ctime filters and overlapping file arguments are not generated.",
+    "level_note": "Trusted: Coq kernel + vm_compute; extraction and the OCaml driver (sample re-evaluated in the kernel each run); the Python orchestration (props/_update.py: walker emulation = pre-order over raw readdir order, glob table for delete patterns, content tokens = first 8 bytes of SHA-256); harness `dump`. The logical model flattens solid blocks and part boundaries; symbolic links and ctime filters are not generated (overlapping file arguments are, for create, append and update).",
 }
 
 STEPS = {"quick": 100, "thorough": 4000}
